@@ -722,9 +722,8 @@ Definition mem_hyp (V : ver) (E : endian) (B : Z) (ms : list (minfo * ty)) (d : 
   nodup_z (ids ms) = true /\
   (V = V1 -> existsb (fun mx : minfo * ty => m_opt (fst mx)) ms = true -> B <= 65535) /\
   Forall (fun mt : minfo * ty =>
-            m_opt (fst mt) = true ->
-            occupies (snd mt) = true /\
-            (V = V1 -> m_mu (fst mt) && (49152 <=? wrap_u16 (m_id (fst mt))) = false)) ms /\
+            m_opt (fst mt) = true -> V = V1 ->
+            occupies (snd mt) = true /\ 0 <= m_id (fst mt) < 16384) ms /\
   Forall (fun mt : minfo * ty =>
     match lookup (m_id (fst mt)) d with
     | Some v => rt_ok B (msz (snd mt)) (ser_ty V E (snd mt) v) (fun buf c => des_ty V E buf (snd mt) c) v
@@ -766,8 +765,8 @@ Lemma rt_opt1 : forall E B ms d mt acc, mem_hyp V1 E B ms d -> In mt ms -> m_opt
 Proof.
   intros E B ms d mt acc HH Hin Hopt pos Hpos.
   pose proof HH as [Hnd [HB1 [Hoc Hmem]]].
-  rewrite Forall_forall in Hoc, Hmem. specialize (Hoc mt Hin Hopt) as [Hocc Hpidok].
-  specialize (Hpidok eq_refl). specialize (Hmem mt Hin).
+  rewrite Forall_forall in Hoc, Hmem. specialize (Hoc mt Hin Hopt eq_refl) as [Hocc Hidr].
+  specialize (Hmem mt Hin).
   assert (HB : B <= 65535).
   { apply HB1; [reflexivity|]. apply existsb_exists. now exists mt. }
   set (pad := zeros (padlen pos 4)).
@@ -775,9 +774,8 @@ Proof.
   assert (Hbp : blen pad = padlen pos 4) by (unfold pad; apply blen_zeros; lia).
   set (q := pos + blen pad).
   assert (Hq4 : q mod 4 = 0) by (unfold q; rewrite Hbp; apply padlen_aligned; lia).
-  set (pid := wrap_u16 (m_id (fst mt)) + (if m_mu (fst mt) then 16384 else 0)).
-  assert (Hpid : 0 <= pid <= 65535).
-  { unfold pid, wrap_u16 in *. destruct (m_mu (fst mt)); cbn [andb] in Hpidok; [apply Z.leb_gt in Hpidok|]; lia. }
+  set (pid := (m_id (fst mt)) + (if m_mu (fst mt) then 16384 else 0)).
+  assert (Hpid : 0 <= pid <= 65535) by (unfold pid; destruct (m_mu (fst mt)); lia).
   (* the two header fields as aligned u16 primitives *)
   destruct (rt_prim V1 E B KU16 pid ltac:(unfold in_range; apply andb_true_intro; split; [apply Z.leb_le|apply Z.ltb_lt]; lia)
               q ltac:(unfold q; lia)) as [b1 [E1 [_ D1]]].
@@ -813,8 +811,8 @@ Proof.
   { unfold ser_prim, ret in E2. rewrite even_align2 in E2 by lia. cbn [app prim_bytes sk_bytes] in E2.
     injection E2; intros; congruence. }
   exists (pad ++ b1 ++ b2 ++ body). split; [|split].
-  - unfold ser_mmember1.  rewrite find_cvS by assumption. cbv zeta. fold pid.
-    rewrite gtb_false by lia. fold pad. fold q. rewrite E1. cbn [bind]. rewrite Eb. cbn [bind].
+  - unfold ser_mmember1.  rewrite find_cvS by assumption. cbv zeta.
+    replace (16384 <=? m_id (fst mt)) with false by (symmetry; apply Z.leb_gt; lia). fold pid. fold pad. fold q. rewrite E1. cbn [bind]. rewrite Eb. cbn [bind].
     rewrite Hb2. fold L. f_equal. f_equal. subst b1.
     rewrite !blen_app, !int_enc_blen. unfold q. lia.
   - subst b1 b2. rewrite !blen_app, !int_enc_blen. lia.
@@ -851,7 +849,868 @@ Proof.
       pose proof (Db ltac:(lia) (pre ++ pad ++ int_enc E 2 pid ++ int_enc E 2 L) post (mkC p2 (c_lim c))) as Dv.
       cbn [c_org c_lim] in Dv. rewrite !Z.add_0_r in Dv.
       rewrite Dv by (rewrite ?blen_app, ?int_enc_blen; unfold p2, q; lia).
-      cbn [dbind]. f_equal. subst p2 q. change (Z.of_nat 2) with 2. Show. lia.
+      cbn [dbind]. subst p2 q. change (Z.of_nat 2) with 2. apply f_equal. lia.
     + subst body. rewrite blen_nil in HL. rewrite HL. cbn [Z.gtb Z.compare].
       f_equal. rewrite blen_nil. unfold q. lia.
 Qed.
+
+Lemma rt_fmember : forall V E B ms d mt acc, mem_hyp V E B ms d -> In mt ms ->
+  rt_ok B (mlow mt) (ser_fmember V E (cvS V E ms) d (m_id (fst mt)))
+        (fun buf c => des_fmember V E buf (fst mt, (snd mt, des_ty V E buf (snd mt))) acc c)
+        (match lookup (m_id (fst mt)) d with
+         | Some v => insert (m_id (fst mt)) v acc
+         | None => acc
+         end).
+Proof.
+  intros V E B ms d mt acc HH Hin. pose proof HH as [Hnd [HB1 [Hoc Hmem]]].
+  pose proof Hmem as Hm. rewrite Forall_forall in Hm. specialize (Hm mt Hin).
+  unfold mlow.
+  destruct (m_opt (fst mt)) eqn:Hopt; cbn [orb].
+  - destruct V.
+    + (* XCDR1: parameter read in place *)
+      apply (rt_weaken B 4); [lia|].
+      eapply rt_ext with (f := ser_mmember1 V1 E (cvS V1 E ms) d (m_id (fst mt))).
+      * intros pos. unfold ser_fmember. rewrite find_cvS by assumption. now rewrite Hopt.
+      * intros buf c pos. unfold des_fmember. cbn [fst]. now rewrite Hopt.
+      * now apply rt_opt1.
+    + destruct (lookup (m_id (fst mt)) d) as [v|] eqn:Hv.
+      * apply (rt_weaken B (1 + msz (snd mt))); [unfold msz; destruct (occupies (snd mt)); lia|].
+        eapply rt_ext with (f := seq2 (ser_prim V2 E KBool 1) (ser_value (cvS V2 E ms) d (m_id (fst mt)))).
+        -- intros pos. unfold ser_fmember. rewrite find_cvS by assumption. rewrite Hopt.
+           unfold ser_opt_fmember. rewrite Hv. reflexivity.
+        -- intros buf c pos. unfold des_fmember. cbn [fst]. rewrite Hopt. unfold des_opt_fmember. reflexivity.
+        -- apply (rt_bind B 1 (msz (snd mt)) _ _ (fun buf c => des_prim V2 E buf c KBool)
+                   (fun b buf c p => if b =? 1
+                      then des_value (fst mt, (snd mt, des_ty V2 E buf (snd mt))) acc c p
+                      else DOk acc p) 1).
+           ++ apply (rt_prim V2 E B KBool 1). reflexivity.
+           ++ change (1 =? 1) with true. cbv iota. now apply rt_value.
+      * eapply rt_ext with (f := ser_prim V2 E KBool 0).
+        -- intros pos. unfold ser_fmember. rewrite find_cvS by assumption. rewrite Hopt.
+           unfold ser_opt_fmember. rewrite Hv. reflexivity.
+        -- intros buf c pos. unfold des_fmember. cbn [fst]. rewrite Hopt. unfold des_opt_fmember. reflexivity.
+        -- intros pos Hpos.
+           destruct (rt_prim V2 E B KBool 0 eq_refl pos Hpos) as [bs [E1 [M1 D1]]].
+           exists bs. split; [exact E1|]. split; [exact M1|].
+           intros HB pre post c Hpre Hlim. now rewrite (D1 HB pre post c Hpre Hlim).
+  - destruct (lookup (m_id (fst mt)) d) as [v|] eqn:Hv; [|congruence].
+    eapply rt_ext with (f := ser_value (cvS V E ms) d (m_id (fst mt))).
+    + intros pos. unfold ser_fmember. rewrite find_cvS by assumption. now rewrite Hopt.
+    + intros buf c pos. unfold des_fmember. cbn [fst]. now rewrite Hopt.
+    + fold (msz (snd mt)). now apply rt_value.
+Qed.
+
+Lemma rt_fmembers : forall V E B ms d app ms2 acc, mem_hyp V E B ms d -> incl ms2 ms ->
+  rt_ok B (slow ms2)
+        (ser_list (fun mx : minfo * (ty * F) => ser_fmember V E (cvS V E ms) d (m_id (fst mx))) (cvS V E ms2))
+        (fun buf c => des_fstruct V E buf app (cvD V E buf ms2) acc c)
+        (ins ms2 d acc).
+Proof.
+  intros V E B ms d app ms2 acc HH. revert acc.
+  induction ms2 as [|mt r IH]; intros acc Hincl.
+  - apply rt_nil.
+  - intros pos Hpos.
+    assert (Hin : In mt ms) by (apply Hincl; now left).
+    destruct (rt_fmember V E B ms d mt acc HH Hin pos Hpos) as [b1 [E1 [M1 D1]]].
+    pose proof (blen_nonneg b1).
+    set (acc' := match lookup (m_id (fst mt)) d with
+                 | Some v => insert (m_id (fst mt)) v acc | None => acc end) in *.
+    assert (Hincl' : incl r ms) by (intros x Hx; apply Hincl; now right).
+    destruct (IH acc' Hincl' (pos + blen b1) ltac:(lia)) as [b2 [E2 [M2 D2]]].
+    pose proof (blen_nonneg b2).
+    exists (b1 ++ b2). split; [|split].
+    + cbn [cvS map ser_list fst]. rewrite E1. cbn [bind].
+      fold (cvS V E r). rewrite E2. cbn [bind]. rewrite blen_app. f_equal. f_equal. lia.
+    + rewrite blen_app. unfold slow, mlow in *. cbn [existsb].
+      destruct (m_opt (fst mt) || occupies (snd mt)); cbn [orb];
+        destruct (existsb (fun mt0 : minfo * ty => m_opt (fst mt0) || occupies (snd mt0)) r); lia.
+    + rewrite blen_app. intros HB pre post c Hpre Hlim.
+      pose proof (D1 ltac:(lia) pre (b2 ++ post) c Hpre ltac:(lia)) as D1'.
+      pose proof (D2 ltac:(lia) (pre ++ b1) post c ltac:(rewrite blen_app; lia) ltac:(lia)) as D2'.
+      replace (pre ++ b1 ++ b2 ++ post) with (pre ++ (b1 ++ b2) ++ post) in D1'
+        by now rewrite <- !app_assoc.
+      replace ((pre ++ b1) ++ b2 ++ post) with (pre ++ (b1 ++ b2) ++ post) in D2'
+        by now rewrite <- !app_assoc.
+      set (buf := pre ++ (b1 ++ b2) ++ post) in *.
+      cbn [cvD map des_fstruct]. rewrite D1'.
+      change (map (fun mt0 : minfo * ty => (fst mt0, (snd mt0, des_ty V E buf (snd mt0)))) r)
+        with (cvD V E buf r).
+      subst acc'.
+      replace (c_org c + pos + (blen b1 + blen b2)) with (c_org c + (pos + blen b1) + blen b2) by lia.
+      replace (c_org c + pos + blen b1) with (c_org c + (pos + blen b1)) by lia.
+      unfold ins in *. cbn [fold_left]. exact D2'.
+Qed.
+
+Lemma as_fstruct_result : forall (r : dres dyn) d e, r = DOk d e ->
+  match r with DOk d' _ => DOk d' e | DErr code p' => DErr code p' | DPanic s => DPanic s end = DOk d e.
+Proof. intros. subst. reflexivity. Qed.
+
+Lemma rt_struct : forall V E B ms d x, B <= u32_max -> mem_hyp V E B ms d -> x <> Mutable ->
+  rt_ok B (slow ms) (ser_struct_nested V E x (cvS V E ms) d)
+        (fun buf c => des_struct_nested V E buf x (cvD V E buf ms) c)
+        (ins ms d []).
+Proof.
+  intros V E B ms d x HBu HH Hx. destruct x; [| |congruence]; unfold ser_struct_nested, des_struct_nested.
+  - apply (rt_fmembers V E B ms d false ms [] HH). apply incl_refl.
+  - unfold ser_appendable. destruct V.
+    + apply (rt_fmembers V1 E B ms d true ms [] HH). apply incl_refl.
+    + apply (rt_weaken B (4 + slow ms)); [unfold slow; destruct (existsb _ ms); lia|].
+      unfold des_appendable2.
+      apply (rt_appendable2 V2 E B (slow ms) _
+               (fun buf c => des_fstruct V2 E buf true (cvD V2 E buf ms) [] c) (ins ms d []) HBu).
+      apply (rt_fmembers V2 E B ms d true ms [] HH). apply incl_refl.
+Qed.
+
+(* ------------------------------------------------------------------ collections *)
+Definition des_elems_body (V : ver) (E : endian) (buf : list Z) (e : ty) (ge : G) (n : Z) (c : rctx) (pos : Z)
+  : dres val :=
+  match e with
+  | TPrim p =>
+    match p with
+    | PByte | PU8 => dbind (read_bytes buf c pos n) (fun bs p' => DOk (VSeqP KU8 bs) p')
+    | _ => dbind (des_z (des_prim V E buf c (prim_sk p)) n pos) (fun l p' => DOk (VSeqP (prim_sk p) l) p')
+    end
+  | TStr => dbind (des_z (des_string V E buf c) n pos) (fun l p' => DOk (VSeqStr l) p')
+  | TWStr => dbind (des_z (des_wstring V E buf c) n pos) (fun l p' => DOk (VSeqStr l) p')
+  | TEnum _ _ | TStruct _ _ | TUnion _ _ _ =>
+    dbind (des_z (fun p => undata (ge c p)) n pos) (fun l p' => DOk (VSeqData l) p')
+  | TSeq _ | TArr _ _ => DPanic P_TODO
+  end.
+Lemma des_elements_unfold : forall V E buf e ge n c pos,
+  des_elements V E buf e ge n c pos =
+  if negb (can_be_empty e) && too_long c n pos then DErr E_NED pos
+  else des_elems_body V E buf e ge n c pos.
+Proof. intros. unfold des_elements, des_elems_body. destruct e; reflexivity. Qed.
+
+Lemma rt_prim_elems : forall V E B k l,
+  forallb (in_range k) l = true ->
+  rt_ok B (blen l) (ser_list (ser_prim V E k) l) (fun buf c => des_z (des_prim V E buf c k) (blen l)) l.
+Proof.
+  intros V E B k l Hr.
+  pose proof (rt_list_id B 1 (ser_prim V E k) (fun buf c => des_prim V E buf c k) l (blen l) ltac:(lia) eq_refl) as H.
+  rewrite Z.mul_1_l in H. apply H.
+  intros z Hz. rewrite forallb_forall in Hr.
+  apply (rt_weaken B (sk_size k)); [pose proof (sk_size_pos k); lia|]. apply rt_prim. now apply Hr.
+Qed.
+
+Lemma rt_elements : forall V E B e (w : val -> bool) fe fu (ge : list Z -> G) v,
+  elem_ok e = true -> is_union e = false -> occupies e || can_be_empty e = true ->
+  elems_wt e w v = true ->
+  (forall d, w (VData d) = true -> rt_ok B (msz e) (fe (VData d)) ge (VData d)) ->
+  rt_ok B (if can_be_empty e then 0 else seq_length v)
+        (ser_elements V E e fe fu v)
+        (fun buf c => des_elements V E buf e (ge buf) (seq_length v) c) v.
+Proof.
+  intros V E B e w fe fu ge v Hok Hnu Hoe Hw Hfe.
+  eapply rt_ext with (f := ser_elements V E e fe fu v)
+    (df := fun buf c p => if negb (can_be_empty e) && too_long c (seq_length v) p then DErr E_NED p
+                          else des_elems_body V E buf e (ge buf) (seq_length v) c p).
+  { reflexivity. } { intros. now rewrite des_elements_unfold. }
+  apply rt_guard.
+  { intros Hg. apply negb_true_iff in Hg. rewrite Hg. lia. }
+  (* aggregated elements: lower bound 1 per element if the type occupies, else none *)
+  assert (Hagg : forall l, v = VSeqData l -> forallb (fun d => w (VData d)) l = true ->
+            rt_ok B (if can_be_empty e then 0 else Z.of_nat (length l))
+                  (ser_list (fun d => fe (VData d)) l)
+                  (fun buf c pos => dbind (des_z (fun p => undata (ge buf c p)) (Z.of_nat (length l)) pos)
+                                          (fun l' p' => DOk (VSeqData l') p'))
+                  (VSeqData l)).
+  { intros l _ Hwl. apply (rt_map B _ _ _ l VSeqData).
+    assert (Hel : forall m, m <= msz e -> forall d, In d l ->
+              rt_ok B m (fe (VData d)) (fun buf c p => undata (ge buf c p)) d).
+    { intros m Hm d Hd. rewrite forallb_forall in Hwl.
+      apply (rt_weaken B (msz e)); [exact Hm|].
+      pose proof (Hfe d (Hwl d Hd)) as Hrt.
+      intros pos Hpos. destruct (Hrt pos Hpos) as [bs [E1 [M1 D1]]].
+      exists bs. split; [exact E1|]. split; [exact M1|].
+      intros HB pre post c Hpre Hlim. unfold undata. now rewrite (D1 HB pre post c Hpre Hlim). }
+    destruct (can_be_empty e) eqn:Hc.
+    - pose proof (rt_list_id B 0 (fun d => fe (VData d)) (fun buf c p => undata (ge buf c p)) l
+                    (Z.of_nat (length l)) ltac:(lia) eq_refl) as H. rewrite Z.mul_0_l in H. apply H.
+      apply Hel. unfold msz. destruct (occupies e); lia.
+    - rewrite orb_false_r in Hoe.
+      pose proof (rt_list_id B 1 (fun d => fe (VData d)) (fun buf c p => undata (ge buf c p)) l
+                    (Z.of_nat (length l)) ltac:(lia) eq_refl) as H. rewrite Z.mul_1_l in H. apply H.
+      apply Hel. unfold msz. rewrite Hoe. lia. }
+  destruct e as [p| | |h ls|e'|n e'|x ms|x dd cs]; try discriminate; cbn [elems_wt] in Hw.
+  - cbn [can_be_empty]. destruct v as [| | |k l| |]; try discriminate.
+    apply andb_prop in Hw as [Hk Hr]. apply sk_eqb_eq in Hk. subst k. cbn [seq_length].
+    assert (Hgen : rt_ok B (blen l) (ser_list (ser_prim V E (prim_sk p)) l)
+              (fun buf c pos => dbind (des_z (des_prim V E buf c (prim_sk p)) (blen l) pos)
+                                      (fun l' p' => DOk (VSeqP (prim_sk p) l') p'))
+              (VSeqP (prim_sk p) l)).
+    { apply (rt_map B _ _ _ l (VSeqP (prim_sk p))). now apply rt_prim_elems. }
+    assert (Hraw : rt_ok B (blen l) (ret l)
+              (fun buf c pos => dbind (read_bytes buf c pos (blen l)) (fun bs p' => DOk (VSeqP KU8 bs) p'))
+              (VSeqP KU8 l)).
+    { apply (rt_map B _ _ _ l (VSeqP KU8)). apply rt_raw. }
+    destruct p; cbn [ser_elements des_elems_body prim_sk sk_eqb] in *; first [exact Hraw | exact Hgen].
+  - cbn [can_be_empty]. destruct v as [| | | |l|]; try discriminate. cbn [ser_elements des_elems_body seq_length].
+    apply (rt_map B _ _ _ l VSeqStr).
+    pose proof (rt_list_id B 1 (ser_string V E) (fun buf c => des_string V E buf c) l (Z.of_nat (length l))
+                  ltac:(lia) eq_refl) as H. rewrite Z.mul_1_l in H. apply H.
+    intros s Hs. rewrite forallb_forall in Hw. apply rt_string. now apply Hw.
+  - cbn [can_be_empty]. destruct v as [| | | |l|]; try discriminate. cbn [ser_elements des_elems_body seq_length].
+    apply (rt_map B _ _ _ l VSeqStr).
+    pose proof (rt_list_id B 1 (ser_wstring V E) (fun buf c => des_wstring V E buf c) l (Z.of_nat (length l))
+                  ltac:(lia) eq_refl) as H. rewrite Z.mul_1_l in H. apply H.
+    intros s Hs. rewrite forallb_forall in Hw. apply rt_wstring. now apply Hw.
+  - destruct v as [| | | | |l]; try discriminate. cbn [ser_elements des_elems_body seq_length].
+    now apply Hagg.
+  - destruct v as [| | | | |l]; try discriminate. cbn [ser_elements des_elems_body seq_length].
+    now apply Hagg.
+Qed.
+
+Lemma seq_length_nonneg : forall v, 0 <= seq_length v.
+Proof. destruct v; cbn [seq_length]; try lia; try apply blen_nonneg. Qed.
+
+Lemma rt_sequence : forall V E B m e fe fu (ge : list Z -> G) v,
+  0 <= m -> seq_length v <= u32_max ->
+  rt_ok B m (ser_elements V E e fe fu v) (fun buf c => des_elements V E buf e (ge buf) (seq_length v) c) v ->
+  rt_ok B 1 (ser_sequence V E e fe fu v) (fun buf c => des_sequence V E buf e (ge buf) c) v.
+Proof.
+  intros V E B m e fe fu ge v Hm Hlen Hel.
+  pose proof (seq_length_nonneg v) as Hnn.
+  assert (Hbody : rt_ok B (4 + m) (seq2 (ser_length V E v) (ser_elements V E e fe fu v))
+            (fun buf c pos => dbind (des_prim V E buf c KU32 pos)
+                                    (fun len p => des_elements V E buf e (ge buf) len c p)) v).
+  { apply (rt_bind B 4 m _ _ (fun buf c => des_prim V E buf c KU32)
+             (fun len buf c p => des_elements V E buf e (ge buf) len c p) (seq_length v) v).
+    - unfold ser_length.
+      replace (wrap_u32 (seq_length v)) with (seq_length v)
+        by (unfold wrap_u32, two32; symmetry; apply Z.mod_small; unfold u32_max in *; lia).
+      apply rt_u32. lia.
+    - exact Hel. }
+  unfold ser_sequence, des_sequence. cbv zeta.
+  destruct (is_prim_ty e); [apply (rt_weaken B (4 + m)); [lia|exact Hbody]|].
+  destruct V; [apply (rt_weaken B (4 + m)); [lia|exact Hbody]|].
+  apply (rt_weaken B (4 + (4 + m))); [lia|].
+  apply (rt_dheader V2 E B (4 + m) _
+           (fun buf c pos => dbind (des_prim V2 E buf c KU32 pos)
+                                   (fun len p => des_elements V2 E buf e (ge buf) len c p))).
+  exact Hbody.
+Qed.
+
+Lemma rt_array : forall V E B m n e fe fu (ge : list Z -> G) v,
+  0 <= m -> seq_length v = n ->
+  rt_ok B m (ser_elements V E e fe fu v) (fun buf c => des_elements V E buf e (ge buf) (seq_length v) c) v ->
+  rt_ok B m (ser_array V E e fe fu v) (fun buf c => des_array V E buf n e (ge buf) c) v.
+Proof.
+  intros V E B m n e fe fu ge v Hm Hlen Hel. subst n.
+  unfold ser_array, des_array.
+  destruct (is_prim_ty e); [exact Hel|].
+  destruct V; [exact Hel|].
+  apply (rt_weaken B (4 + m)); [lia|].
+  apply (rt_dheader V2 E B m _ (fun buf c => des_elements V2 E buf e (ge buf) (seq_length v) c)).
+  exact Hel.
+Qed.
+
+(* ------------------------------------------------------------------ the main induction *)
+Lemma tgood_members : forall V ms,
+  (fix go (ms : list (minfo * ty)) : bool :=
+     match ms with [] => true | (m, t') :: r => wf_ty t' && go r end) ms = true ->
+  (fix go (ms : list (minfo * ty)) : bool :=
+     match ms with [] => false | (_, t') :: r => ty_any (tbad V) t' || go r end) ms = false ->
+  Forall (fun mt => tgood V (snd mt) = true) ms.
+Proof.
+  induction ms as [|[m t] r IH]; intros H1 H2; [constructor|].
+  apply andb_prop in H1 as [H1a H1b]. apply orb_false_elim in H2 as [H2a H2b].
+  constructor; [|now apply IH]. cbn [snd]. unfold tgood. now rewrite H1a, H2a.
+Qed.
+
+Lemma tgood_struct : forall V x ms, tgood V (TStruct x ms) = true ->
+  nodup_z (ids ms) = true /\ tbad V (TStruct x ms) = false /\
+  Forall (fun mt => tgood V (snd mt) = true) ms.
+Proof.
+  intros V x ms H. unfold tgood in H. apply andb_prop in H as [Hw Ha].
+  apply negb_true_iff in Ha. cbn [wf_ty ty_any] in Hw, Ha.
+  apply orb_false_elim in Ha as [Hb Hg].
+  apply andb_prop in Hw as [Hw Hg']. apply andb_prop in Hw as [Hnd _].
+  repeat split; try assumption. now apply tgood_members.
+Qed.
+
+Lemma tgood_elem : forall V e, wf_ty e = true -> ty_any (tbad V) e = false -> tgood V e = true.
+Proof. intros. unfold tgood. now rewrite H, H0. Qed.
+
+Lemma wt_members : forall d ms,
+  (fix go (ms : list (minfo * ty)) : bool :=
+     match ms with
+     | [] => true
+     | (m, t') :: r =>
+       (match lookup (m_id m) d with Some v' => wt t' v' | None => m_opt m end) && go r
+     end) ms = true ->
+  Forall (fun mt : minfo * ty =>
+            match lookup (m_id (fst mt)) d with
+            | Some v' => wt (snd mt) v' = true
+            | None => m_opt (fst mt) = true
+            end) ms.
+Proof.
+  induction ms as [|[m t] r IH]; intros H; [constructor|].
+  apply andb_prop in H as [H1 H2]. constructor; [|now apply IH].
+  cbn [fst snd]. destruct (lookup (m_id m) d); exact H1.
+Qed.
+
+Lemma ty_any_self : forall p t, ty_any p t = false -> p t = false.
+Proof. intros p t H. destruct t; cbn [ty_any] in H; apply orb_false_elim in H; tauto. Qed.
+
+Lemma ser_ty_seq : forall V E e, exists fu, ser_ty V E (TSeq e) = ser_sequence V E e (ser_ty V E e) fu.
+Proof. intros. eexists. reflexivity. Qed.
+Lemma ser_ty_arr : forall V E n e, exists fu, ser_ty V E (TArr n e) = ser_array V E e (ser_ty V E e) fu.
+Proof. intros. eexists. reflexivity. Qed.
+
+Lemma ty_any_member : forall p x ms mt, In mt ms -> ty_any p (snd mt) = true ->
+  ty_any p (TStruct x ms) = true.
+Proof.
+  intros p x ms mt Hin Ht. cbn [ty_any]. apply orb_true_iff. right.
+  induction ms as [|[m t] r IH]; [contradiction|].
+  destruct Hin as [<-|Hin]; cbn [snd] in *.
+  - now rewrite Ht.
+  - rewrite (IH Hin). apply orb_true_r.
+Qed.
+
+Lemma occ_or_cbe : forall t, wf_ty t = true -> occupies t || can_be_empty t = true.
+Proof.
+  induction t using ty_ind'; intros Hwf; try reflexivity.
+  - (* array *)
+    cbn [wf_ty] in Hwf. apply andb_prop in Hwf as [Hwf Hn2]. apply andb_prop in Hwf as [Hwf Hn1].
+    apply andb_prop in Hwf as [_ Hwfe]. apply Z.leb_le in Hn1. specialize (IHt Hwfe).
+    cbn [occupies can_be_empty]. destruct (Z.leb_spec 1 n); destruct (Z.eqb_spec n 0); cbn [andb orb]; try lia;
+      try reflexivity. destruct (occupies t); [reflexivity|exact IHt].
+  - (* structure *)
+    cbn [wf_ty] in Hwf. apply andb_prop in Hwf as [_ Hgo].
+    cbn [occupies can_be_empty].
+    induction H as [|[m t'] r Hx Hr IH]; [reflexivity|].
+    apply andb_prop in Hgo as [Hw1 Hw2]. cbn [snd] in Hx. specialize (Hx Hw1). specialize (IH Hw2).
+    destruct (m_opt m); cbn [orb negb andb]; [reflexivity|].
+    destruct (occupies t'); cbn [orb]; [reflexivity|]. cbn [orb] in Hx. rewrite Hx. cbn [andb]. exact IH.
+Qed.
+
+Lemma occ_cbe_excl : forall t, occupies t = true -> can_be_empty t = false.
+Proof.
+  induction t using ty_ind'; intros Ho; try reflexivity.
+  - cbn [occupies] in Ho. apply andb_prop in Ho as [Hn Hoe]. apply Z.leb_le in Hn.
+    cbn [can_be_empty]. rewrite (IHt Hoe). destruct (Z.eqb_spec n 0); [lia|reflexivity].
+  - cbn [occupies] in Ho. cbn [can_be_empty].
+    induction H as [|[m t'] r Hx Hr IH]; [discriminate|]. cbn [snd] in Hx.
+    destruct (m_opt m); cbn [negb andb]; [reflexivity|]. cbn [orb] in Ho.
+    destruct (occupies t') eqn:Hot.
+    + rewrite (Hx eq_refl). reflexivity.
+    + cbn [orb] in Ho. rewrite (IH Ho). apply andb_false_r.
+Qed.
+
+(* size bound of the decode clause *)
+Definition Bok (V : ver) (B : Z) (t : ty) : Prop :=
+  B <= u32_max /\ (V = V1 -> ty_any has_opt_member t = true -> B <= 65535).
+
+Theorem rt_ty : forall V E B t, tgood V t = true -> Bok V B t ->
+  forall v, wt t v = true ->
+  rt_ok B (msz t) (ser_ty V E t v) (fun buf c => des_ty V E buf t c) v.
+Proof.
+  intros V E B t. induction t using ty_ind'; intros Hg HB v Hw.
+  - cbn [wt] in Hw. destruct v as [k z| | | | |]; try discriminate.
+    apply andb_prop in Hw as [Hk Hr]. pose proof (sk_eqb_eq _ _ Hk) as ->.
+    cbn [ser_ty des_ty]. rewrite sk_eqb_refl.
+    apply (rt_map B _ _ _ z (VP (prim_sk p))).
+    apply (rt_weaken B (sk_size (prim_sk p))); [pose proof (sk_size_pos (prim_sk p)); unfold msz; cbn; lia|].
+    now apply rt_prim.
+  - cbn [wt] in Hw. destruct v as [|s| | | |]; try discriminate. cbn [ser_ty des_ty].
+    apply (rt_map B _ _ _ s VStr). now apply rt_string.
+  - cbn [wt] in Hw. destruct v as [|s| | | |]; try discriminate. cbn [ser_ty des_ty].
+    apply (rt_map B _ _ _ s VStr). now apply rt_wstring.
+  - assert (Hh : holder_ok h = true).
+    { unfold tgood in Hg. apply andb_prop in Hg as [Hg _]. cbn [wf_ty] in Hg. now apply andb_prop in Hg as [Hg _]. }
+    destruct v as [| |d| | |]; try (cbn [wt] in Hw; discriminate).
+    cbn [ser_ty des_ty on_data]. unfold as_data.
+    apply (rt_map B _ _ _ d VData). now apply rt_enum.
+  - (* sequence *)
+    unfold tgood in Hg. apply andb_prop in Hg as [Hwf Ha]. apply negb_true_iff in Ha.
+    cbn [wf_ty] in Hwf. apply andb_prop in Hwf as [Hok Hwfe].
+    cbn [ty_any] in Ha. apply orb_false_elim in Ha as [Hself Hae].
+    pose proof (tgood_elem V t Hwfe Hae) as Hge.
+    assert (HBe : Bok V B t).
+    { destruct HB as [HB0 HB1]. split; [exact HB0|]. intros HV Ho. apply HB1; [exact HV|].
+      cbn [ty_any]. rewrite Ho. apply orb_true_r. }
+    cbn [wt] in Hw. apply andb_prop in Hw as [Hel Hlen]. apply Z.leb_le in Hlen.
+    destruct (ser_ty_seq V E t) as [fu ->]. cbn [des_ty].
+    pose proof (occ_or_cbe t Hwfe) as Hz.
+    pose proof (ty_any_self _ _ Hae) as Hb. unfold tbad in Hb.
+    apply orb_false_elim in Hb as [Hb _]. apply orb_false_elim in Hb as [Hb1 _].
+    apply (rt_sequence V E B (if can_be_empty t then 0 else seq_length v)); [|exact Hlen|].
+    { pose proof (seq_length_nonneg v). destruct (can_be_empty t); lia. }
+    apply (rt_elements V E B t (wt t)); try assumption.
+    intros d Hwd. now apply IHt.
+  - (* array *)
+    unfold tgood in Hg. apply andb_prop in Hg as [Hwf Ha]. apply negb_true_iff in Ha.
+    cbn [wf_ty] in Hwf. apply andb_prop in Hwf as [Hwf _]. apply andb_prop in Hwf as [Hwf _].
+    apply andb_prop in Hwf as [Hok Hwfe].
+    cbn [ty_any] in Ha. apply orb_false_elim in Ha as [Hself Hae].
+    pose proof (tgood_elem V t Hwfe Hae) as Hge.
+    assert (HBe : Bok V B t).
+    { destruct HB as [HB0 HB1]. split; [exact HB0|]. intros HV Ho. apply HB1; [exact HV|].
+      cbn [ty_any]. rewrite Ho. apply orb_true_r. }
+    cbn [wt] in Hw. apply andb_prop in Hw as [Hel Hlen]. apply Z.eqb_eq in Hlen.
+    destruct (ser_ty_arr V E n t) as [fu ->]. cbn [des_ty].
+    pose proof (occ_or_cbe t Hwfe) as Hz.
+    pose proof (ty_any_self _ _ Hae) as Hb. unfold tbad in Hb.
+    apply orb_false_elim in Hb as [Hb _]. apply orb_false_elim in Hb as [Hb1 _].
+    apply (rt_weaken B (if can_be_empty t then 0 else seq_length v)).
+    { unfold msz. cbn [occupies]. pose proof (seq_length_nonneg v).
+      destruct (Z.leb_spec 1 n); cbn [andb]; [|destruct (can_be_empty t); lia].
+      destruct (occupies t) eqn:Ho; [|destruct (can_be_empty t); lia].
+      rewrite (occ_cbe_excl t Ho). lia. }
+    apply rt_array; [pose proof (seq_length_nonneg v); destruct (can_be_empty t); lia|exact Hlen|].
+    apply (rt_elements V E B t (wt t)); try assumption.
+    intros d Hwd. now apply IHt.
+  - (* structure *)
+    destruct (tgood_struct V x ms Hg) as [Hnd [Hb Hgm]].
+    destruct v as [| |d| | |]; try (cbn [wt] in Hw; discriminate).
+    cbn [wt] in Hw. apply andb_prop in Hw as [Hw Hgo]. apply andb_prop in Hw as [Hs Hk].
+    apply wt_members in Hgo.
+    assert (Hids : forallb id_ok (ids ms) = true).
+    { unfold tgood in Hg. apply andb_prop in Hg as [Hwf _]. cbn [wf_ty] in Hwf.
+      apply andb_prop in Hwf as [Hwf _]. now apply andb_prop in Hwf as [_ Hwf]. }
+    unfold tbad in Hb. apply orb_false_elim in Hb as [Hb Hb3]. apply orb_false_elim in Hb as [_ Hmut].
+    assert (Hx : x <> Mutable) by (intros ->; discriminate).
+    destruct HB as [HB0 HB1].
+    assert (HH : mem_hyp V E B ms d).
+    { split; [exact Hnd|]. split; [|split].
+      - intros HV Ho. apply HB1; [exact HV|]. cbn [ty_any has_opt_member]. rewrite Ho. reflexivity.
+      - apply Forall_forall. intros mt Hin Hopt ->.
+        apply orb_false_elim in Hb3 as [Hzt Hpl]. cbn [opt_empty_trap] in Hzt. cbn [pl_long] in Hpl. split.
+        + destruct (occupies (snd mt)) eqn:Hoc; [reflexivity|].
+          assert (existsb (fun mx : minfo * ty => m_opt (fst mx) && negb (occupies (snd mx))) ms = true).
+          { apply existsb_exists. exists mt. split; [exact Hin|]. now rewrite Hopt, Hoc. }
+          congruence.
+        + rewrite forallb_forall in Hids.
+          pose proof (Hids (m_id (fst mt)) ltac:(unfold ids; apply in_map_iff; now exists mt)) as Hi.
+          unfold id_ok in Hi. apply andb_prop in Hi as [Hi0 _]. apply Z.leb_le in Hi0.
+          destruct (Z.leb_spec 16384 (m_id (fst mt))) as [Hge|]; [|lia].
+          assert (existsb (fun mx : minfo * ty => m_opt (fst mx) && (16384 <=? m_id (fst mx))) ms = true).
+          { apply existsb_exists. exists mt. split; [exact Hin|]. rewrite Hopt. cbn [andb]. now apply Z.leb_le. }
+          congruence.
+      - rewrite Forall_forall in *. intros mt Hin.
+        specialize (H mt Hin). specialize (Hgm mt Hin). specialize (Hgo mt Hin).
+        destruct (lookup (m_id (fst mt)) d) as [v'|] eqn:Hl; [|exact Hgo].
+        apply H; [exact Hgm| |exact Hgo].
+        split; [exact HB0|]. intros HV Ho. apply HB1; [exact HV|].
+        now apply (ty_any_member _ x ms mt). }
+    rewrite ser_ty_struct. cbn [on_data].
+    eapply rt_ext with (df := fun buf c pos =>
+      dbind (des_struct_nested V E buf x (cvD V E buf ms) c pos) (fun d' p => DOk (VData d') p)).
+    + reflexivity.
+    + intros. now rewrite des_ty_struct.
+    + pose proof (rt_map B _ _ _ (ins ms d []) VData (rt_struct V E B ms d x HB0 HH Hx)) as Hr.
+      rewrite (ins_eq ms d Hs Hk) in Hr. unfold msz. rewrite occupies_struct. exact Hr.
+  - exfalso. unfold tgood in Hg. apply andb_prop in Hg as [_ Hg]. apply negb_true_iff in Hg.
+    apply ty_any_self in Hg. discriminate.
+Qed.
+
+(* ------------------------------------------------------------------ top level *)
+Lemma dispatch_ok : forall V E x, dispatch 0 (repr_id V E x) = Some (V, E).
+Proof. destruct V, E, x; reflexivity. Qed.
+
+Lemma pad_count_range : forall n, 0 <= pad_count n <= 3.
+Proof. intros. unfold pad_count. lia. Qed.
+
+(* shape of every successful serialization: header with the padding count in the options
+   byte, body, that many zero bytes; total length a multiple of 4 *)
+Theorem encode_shape : forall V E t v bs, encode V E t v = Ok bs ->
+  exists body p n,
+    ser_ty V E t v 0 = Ok (body, p) /\
+    n = pad_count (4 + blen body) /\ 0 <= n <= 3 /\
+    bs = [0; repr_id V E (ty_ext t); 0; n] ++ body ++ zeros n /\
+    blen bs mod 4 = 0 /\ nth 3 bs 0 = n.
+Proof.
+  intros V E t v bs H. unfold encode in H.
+  destruct (is_aggr t); [|discriminate].
+  destruct (ser_ty V E t v 0) as [[body p]| |] eqn:Hs; try discriminate.
+  cbn [bind] in H. inversion H as [Hbs]. clear H.
+  exists body, p, (pad_count (4 + blen body)).
+  assert (Hb : blen (0 :: repr_id V E (ty_ext t) :: 0 :: 0 :: body) = 4 + blen body).
+  { rewrite !blen_cons. lia. }
+  cbn [app set_nth3]. rewrite !Hb. pose proof (pad_count_range (4 + blen body)) as Hr.
+  repeat split; try lia.
+  rewrite !blen_cons, blen_app, blen_zeros by lia.
+  pose proof (blen_nonneg body). unfold pad_count in *. lia.
+Qed.
+
+Lemma size_limit_Bok : forall V t, Bok V (size_limit V t) t.
+Proof.
+  intros V t. unfold Bok, size_limit, u32_max. destruct V.
+  - destruct (ty_any has_opt_member t); split; try lia; intros; try lia; discriminate.
+  - split; [lia|discriminate].
+Qed.
+
+(* round trip and padding for a sample within the size limit *)
+Theorem roundtrip_tgood : forall V E t v,
+  is_aggr t = true -> tgood V t = true -> wt t v = true ->
+  exists bs, encode V E t v = Ok bs /\
+    (blen bs <= size_limit V t ->
+     decode t bs = Ok v /\
+     exists p, decode_end t bs = Some p /\ nth 3 bs 0 = blen bs - 4 - p).
+Proof.
+  intros V E t v Ha Hg Hw.
+  destruct (rt_ty V E (size_limit V t) t Hg (size_limit_Bok V t) v Hw 0 ltac:(lia)) as [body [E1 [_ D1]]].
+  unfold encode. rewrite Ha, E1. cbn [bind].
+  set (n := pad_count (blen ([0; repr_id V E (ty_ext t); 0; 0] ++ body))).
+  eexists. split; [reflexivity|].
+  cbn [app set_nth3]. intros Hlim.
+  pose proof (blen_nonneg body) as Hbn.
+  assert (Hn : 0 <= n <= 3) by (subst n; apply pad_count_range).
+  rewrite !blen_cons, blen_app, blen_zeros in Hlim by lia.
+  assert (Htop : des_top t (0 :: repr_id V E (ty_ext t) :: 0 :: n :: body ++ zeros n) =
+                 Ok (DOk v (blen body))).
+  { unfold des_top.
+    replace (blen (0 :: repr_id V E (ty_ext t) :: 0 :: n :: body ++ zeros n) <? 4) with false.
+    2:{ symmetry. apply Z.ltb_ge. rewrite !blen_cons. pose proof (blen_nonneg (body ++ zeros n)). lia. }
+    rewrite dispatch_ok, Ha. f_equal.
+    pose proof (D1 ltac:(lia) [] (zeros n) (mkC 0 (blen (body ++ zeros n))) eq_refl) as D.
+    cbn [c_org c_lim app Z.add] in D. rewrite D by (rewrite blen_app, blen_zeros; lia). reflexivity. }
+  split.
+  - unfold decode. rewrite Htop. reflexivity.
+  - exists (blen body). unfold decode_end. rewrite Htop. split; [reflexivity|].
+    cbn [nth]. rewrite !blen_cons, blen_app, blen_zeros by lia. lia.
+Qed.
+
+(* ------------------------------------------------------------------ classes *)
+From Coq Require Import Btauto.
+
+Lemma ty_any_ext : forall p q, (forall t, p t = q t) -> forall t, ty_any p t = ty_any q t.
+Proof.
+  intros p q Hpq t. induction t using ty_ind'; cbn [ty_any]; rewrite Hpq; try reflexivity;
+    try (now rewrite IHt).
+  - f_equal. induction H as [|[m t'] r Hx Hr IH]; [reflexivity|]. cbn [snd] in Hx. now rewrite Hx, IH.
+  - rewrite IHt. f_equal. f_equal.
+    induction H as [|[m t'] r Hx Hr IH]; [reflexivity|]. cbn [snd] in Hx. now rewrite Hx, IH.
+Qed.
+
+Lemma ty_any_or : forall p q t,
+  ty_any (fun t => p t || q t) t = ty_any p t || ty_any q t.
+Proof.
+  intros p q t. induction t using ty_ind'; cbn [ty_any]; try btauto.
+  - rewrite IHt. btauto.
+  - rewrite IHt. btauto.
+  - assert (Hgo :
+      (fix go (ms : list (minfo * ty)) : bool :=
+         match ms with [] => false | (_, t') :: r => ty_any (fun t => p t || q t) t' || go r end) ms =
+      (fix go (ms : list (minfo * ty)) : bool :=
+         match ms with [] => false | (_, t') :: r => ty_any p t' || go r end) ms ||
+      (fix go (ms : list (minfo * ty)) : bool :=
+         match ms with [] => false | (_, t') :: r => ty_any q t' || go r end) ms).
+    { induction H as [|[m t'] r Hx Hr IH]; [reflexivity|]. cbn [snd] in Hx. rewrite Hx, IH. btauto. }
+    rewrite Hgo. btauto.
+  - assert (Hgo :
+      (fix go (ms : list (minfo * ty)) : bool :=
+         match ms with [] => false | (_, t') :: r => ty_any (fun t => p t || q t) t' || go r end) cs =
+      (fix go (ms : list (minfo * ty)) : bool :=
+         match ms with [] => false | (_, t') :: r => ty_any p t' || go r end) cs ||
+      (fix go (ms : list (minfo * ty)) : bool :=
+         match ms with [] => false | (_, t') :: r => ty_any q t' || go r end) cs).
+    { induction H as [|[m t'] r Hx Hr IH]; [reflexivity|]. cbn [snd] in Hx. rewrite Hx, IH. btauto. }
+    rewrite Hgo, IHt. btauto.
+Qed.
+
+Lemma ty_any_mono : forall p q, (forall t, q t = true -> p t = true) ->
+  forall t, ty_any p t = false -> ty_any q t = false.
+Proof.
+  intros p q Hpq.
+  assert (Hqf : forall t0, p t0 = false -> q t0 = false).
+  { intros t0 Hp. destruct (q t0) eqn:Hq; [apply Hpq in Hq; congruence|reflexivity]. }
+  intros t. induction t using ty_ind'; cbn [ty_any]; intros Hf;
+    apply orb_false_elim in Hf as [Hf1 Hf2]; rewrite (Hqf _ Hf1); cbn [orb];
+    try reflexivity; try (now apply IHt).
+  - clear Hf1. revert Hf2. induction H as [|[m t'] r Hx Hr IH]; intros Hf2; [reflexivity|]. cbn [snd] in Hx.
+    apply orb_false_elim in Hf2 as [Ha Hb]. now rewrite (Hx Ha), (IH Hb).
+  - apply orb_false_elim in Hf2 as [Hd Hc]. rewrite IHt by assumption. cbn [orb].
+    clear Hf1. revert Hc. induction H as [|[m t'] r Hx Hr IH]; intros Hc; [reflexivity|]. cbn [snd] in Hx.
+    apply orb_false_elim in Hc as [Ha Hb]. now rewrite (Hx Ha), (IH Hb).
+Qed.
+
+Lemma ty_any_false : forall t, ty_any (fun _ => false) t = false.
+Proof.
+  induction t using ty_ind'; cbn [ty_any orb]; try reflexivity; try assumption.
+  - induction H as [|[m t'] r Hx Hr IH]; [reflexivity|]. cbn [snd] in Hx. now rewrite Hx, IH.
+  - rewrite IHt. cbn [orb].
+    induction H as [|[m t'] r Hx Hr IH]; [reflexivity|]. cbn [snd] in Hx. now rewrite Hx, IH.
+Qed.
+
+Lemma known0_tgood : forall V t v,
+  wf_ty t = true -> sup V t = true -> known_class V t v = 0%N -> tgood V t = true.
+Proof.
+  intros V t v Hwf Hsup Hk. unfold known_class in Hk.
+  destruct (stage2 t) eqn:H3; [|discriminate]. cbn [negb] in Hk.
+  unfold stage2 in H3. apply negb_true_iff in H3.
+  rewrite ty_any_or in H3. apply orb_false_elim in H3 as [H3a H3b].
+  unfold tgood. rewrite Hwf. cbn [andb]. apply negb_true_iff.
+  destruct V; cbn [andb] in Hk.
+  - destruct (ty_any opt_empty_trap t) eqn:Hz; [discriminate|].
+    unfold sup in Hsup. apply negb_true_iff in Hsup.
+    rewrite (ty_any_ext (tbad V1)
+               (fun t => (is_union t || is_mutable t) || (opt_empty_trap t || pl_long t)))
+      by reflexivity.
+    now rewrite !ty_any_or, H3a, H3b, Hz, Hsup.
+  - rewrite (ty_any_ext (tbad V2)
+               (fun t => (is_union t || is_mutable t) || (fun _ => false) t))
+      by reflexivity.
+    now rewrite !ty_any_or, H3a, H3b, ty_any_false.
+Qed.
+
+Lemma stage1_stage2 : forall t, stage1 t = true -> stage2 t = true.
+Proof.
+  intros t H. unfold stage1, stage2 in *. apply negb_true_iff in H. apply negb_true_iff.
+  revert H. apply ty_any_mono. intros t0 Hq.
+  destruct t0 as [| | | | | |x ms|x dd cs]; try discriminate; cbn in *.
+  - destruct x; try discriminate; reflexivity.
+  - reflexivity.
+Qed.
+
+(* the statement of C09 outside the recorded classes: for every well-formed type and every
+   well-typed value that is in no known-finding class, all four encodings round-trip (samples
+   within the size limit of the length fields) *)
+Theorem roundtrip_outside_known : forall V E t v,
+  is_aggr t = true -> wf_ty t = true -> sup V t = true -> wt t v = true -> known_class V t v = 0%N ->
+  exists bs, encode V E t v = Ok bs /\ (blen bs <= size_limit V t -> decode t bs = Ok v).
+Proof.
+  intros V E t v Ha Hwf Hsup Hw Hk. pose proof (known0_tgood V t v Hwf Hsup Hk) as Hg.
+  destruct (roundtrip_tgood V E t v Ha Hg Hw) as [bs [He Hd]].
+  exists bs. split; [exact He|]. intros Hl. now destruct (Hd Hl).
+Qed.
+
+Theorem roundtrip_S2 : forall V E t v,
+  is_aggr t = true -> wf_ty t = true -> stage2 t = true -> sup V t = true -> wt t v = true ->
+  known_class V t v = 0%N ->
+  exists bs, encode V E t v = Ok bs /\ (blen bs <= size_limit V t -> decode t bs = Ok v).
+Proof. intros. now apply roundtrip_outside_known. Qed.
+
+Lemma stage1_no_opt : forall p t, (forall t0, p t0 = true -> has_opt_member t0 = true) ->
+  stage1 t = true -> ty_any p t = false.
+Proof.
+  intros p t Hp H1. unfold stage1 in H1. apply negb_true_iff in H1. revert H1. apply ty_any_mono.
+  intros t0 Hq. rewrite (Hp t0 Hq). now rewrite orb_true_r.
+Qed.
+Lemma existsb_opt : forall (q : minfo * ty -> bool) ms,
+  existsb (fun mx : minfo * ty => m_opt (fst mx) && q mx) ms = true ->
+  existsb (fun mx : minfo * ty => m_opt (fst mx)) ms = true.
+Proof.
+  intros q ms H. apply existsb_exists in H as [mx [Hin Hq]]. apply existsb_exists. exists mx.
+  split; [exact Hin|]. now apply andb_prop in Hq as [Hq _].
+Qed.
+
+(* in stage 1 no recorded class can occur, every type is supported in both versions, and the size
+   limit is the one of the u32 length fields *)
+Lemma stage1_known : forall V t v, stage1 t = true -> known_class V t v = 0%N /\ sup V t = true.
+Proof.
+  intros V t v H1. pose proof (stage1_stage2 t H1) as H2.
+  unfold known_class, sup. rewrite H2. cbn [negb].
+  rewrite (stage1_no_opt opt_empty_trap t), (stage1_no_opt pl_long t); try assumption.
+  - now destruct V.
+  - intros t0 Hq. destruct t0 as [| | | | | |x ms|]; try discriminate. cbn [pl_long] in Hq. cbn [has_opt_member].
+    exact (existsb_opt (fun mx => 16384 <=? m_id (fst mx)) ms Hq).
+  - intros t0 Hq. destruct t0 as [| | | | | |x ms|]; try discriminate. cbn [opt_empty_trap] in Hq. cbn [has_opt_member].
+    exact (existsb_opt (fun mx => negb (occupies (snd mx))) ms Hq).
+Qed.
+
+Lemma stage1_size_limit : forall V t, stage1 t = true -> size_limit V t = u32_max.
+Proof.
+  intros V t H1. unfold size_limit. destruct V; [|reflexivity].
+  now rewrite (stage1_no_opt has_opt_member t (fun _ H => H) H1).
+Qed.
+
+Theorem roundtrip_S1 : forall V E t v,
+  is_aggr t = true -> wf_ty t = true -> stage1 t = true -> wt t v = true ->
+  exists bs, encode V E t v = Ok bs /\ (blen bs <= u32_max -> decode t bs = Ok v).
+Proof.
+  intros V E t v Ha Hwf H1 Hw. destruct (stage1_known V t v H1) as [Hk Hsup].
+  destruct (roundtrip_outside_known V E t v Ha Hwf Hsup Hw Hk) as [bs [He Hd]].
+  exists bs. split; [exact He|]. rewrite (stage1_size_limit V t H1) in Hd. exact Hd.
+Qed.
+
+(* ------------------------------------------------------------------ witnesses *)
+Definition mk (id : Z) : minfo := mkM id false false false false [].
+Definition mko (id : Z) : minfo := mkM id true false false false [].
+
+Definition refutes (V : ver) (E : endian) (t : ty) (v : val) (k : N) : Prop :=
+  is_aggr t = true /\ wf_ty t = true /\ wt t v = true /\ known_class V t v = k /\
+  match encode V E t v with Ok bs => decode t bs <> Ok v | _ => True end.
+Ltac wit :=
+  unfold refutes; do 4 (split; [vm_compute; reflexivity|]); vm_compute; try discriminate; exact I.
+
+(* class 4 (D26): mutable {sequence<long> [7;1]; long 77} in XCDR2: EMHEADER LC = 5 *)
+Lemma witness_lc5_sequence :
+  refutes V2 LE (TStruct Mutable [(mk 0, TSeq (TPrim PI32)); (mk 1, TPrim PI32)])
+          (VData [(0, VSeqP KI32 [7; 1]); (1, VP KI32 77)]) 4.
+Proof. wit. Qed.
+(* class 4: final {mutable {long 5}; long 77} in XCDR2: the nested mutable struct is not skipped *)
+Lemma witness_nested_mutable :
+  refutes V2 LE (TStruct Final [(mk 0, TStruct Mutable [(mk 0, TPrim PI32)]); (mk 1, TPrim PI32)])
+          (VData [(0, VData [(0, VP KI32 5)]); (1, VP KI32 77)]) 4.
+Proof. wit. Qed.
+(* class 4: mutable {uint64 9} in XCDR1: alignment origin of the parameter value *)
+Lemma witness_xcdr1_mutable_align :
+  refutes V1 LE (TStruct Mutable [(mk 0, TPrim PU64)]) (VData [(0, VP KU64 9)]) 4.
+Proof. wit. Qed.
+(* class 4: final {appendable union (case 10: octet 3); octet 4} in XCDR1: no DHEADER written, one read *)
+Lemma witness_appendable_union_xcdr1 :
+  refutes V1 LE
+    (TStruct Final [(mk 0, TUnion Appendable (TPrim PI32) [(mkM 1 false false false false [10], TPrim PU8)]);
+                    (mk 1, TPrim PU8)])
+    (VData [(0, VData [(0, VP KI32 10); (1, VP KU8 3)]); (1, VP KU8 4)]) 4.
+Proof. wit. Qed.
+(* class 4: sequence of appendable unions in XCDR2: elements written as FINAL unions *)
+Lemma witness_union_sequence :
+  refutes V2 LE
+    (TStruct Final [(mk 0, TSeq (TUnion Appendable (TPrim PI32) [(mkM 1 false false false false [10], TPrim PU8)]))])
+    (VData [(0, VSeqData [[(0, VP KI32 10); (1, VP KU8 3)]])]) 4.
+Proof. wit. Qed.
+(* class 5: XCDR1 {@optional E e (present); octet 1}: read back as absent *)
+Lemma witness_zero_size_optional :
+  refutes V1 LE (TStruct Final [(mko 0, TStruct Final []); (mk 1, TPrim PU8)])
+          (VData [(0, VData []); (1, VP KU8 1)]) 5.
+Proof. wit. Qed.
+(* the inputs of the three repaired defects (former classes 1, 2 and 3) round-trip *)
+Lemma regression_repaired :
+  (let t := TStruct Final [(mk 0, TPrim PChar8); (mk 1, TPrim PU8)] in
+   let v := VData [(0, VP KChar8 233); (1, VP KU8 9)] in
+   exists bs, encode V1 LE t v = Ok bs /\ decode t bs = Ok v) /\
+  (let t := TStruct Final [(mk 0, TPrim PU64); (mk 1, TPrim PF128)] in
+   let v := VData [(0, VP KU64 7); (1, VP KF128 9)] in
+   exists bs, encode V1 LE t v = Ok bs /\ decode t bs = Ok v) /\
+  (let t := TStruct Final [(mko 0, TPrim PI32); (mk 1, TPrim PI32)] in
+   let v := VData [(0, VP KI32 5); (1, VP KI32 77)] in
+   exists bs, encode V1 LE t v = Ok bs /\ decode t bs = Ok v) /\
+  (let t := TStruct Final [(mko 0, TPrim PU8); (mk 1, TPrim PU64); (mko 2, TPrim PU64)] in
+   let v := VData [(0, VP KU8 1); (1, VP KU64 2)] in
+   exists bs, encode V1 BE t v = Ok bs /\ decode t bs = Ok v) /\
+  (let t := TStruct Final [(mk 0, TPrim PU64); (mk 1, TArr 2 (TStruct Final [(mk 0, TStruct Final [])]))] in
+   let v := VData [(0, VP KU64 0); (1, VSeqData [[(0, VData [])]; [(0, VData [])]])] in
+   exists bs, encode V2 BE t v = Ok bs /\ decode t bs = Ok v) /\
+  encode V1 LE (TStruct Final [(mkM 49152 true false true false [], TPrim PU8)])
+         (VData [(49152, VP KU8 1)]) = Err E_ID.
+Proof.
+  repeat split; cbv zeta; try (eexists; (split; [vm_compute; reflexivity|vm_compute; reflexivity])).
+Qed.
+
+(* non-vacuity of the round-trip theorems: a nested S2 value in no class *)
+Definition ex_ty : ty :=
+  TStruct Appendable
+    [(mk 0, TPrim PU8); (mko 1, TPrim PU64); (mk 2, TStr); (mk 3, TSeq (TPrim PI16));
+     (mk 4, TArr 2 (TStruct Final [(mk 0, TEnum PI32 [0; 5]); (mk 1, TWStr)]))].
+Definition ex_val : val :=
+  VData [(0, VP KU8 7); (1, VP KU64 9); (2, VStr [104; 233; 8364]); (3, VSeqP KI16 [-1; 300]);
+         (4, VSeqData [[(0, VData [(0, VP KI32 5)]); (1, VStr [128512])];
+                       [(0, VData [(0, VP KI32 0)]); (1, VStr [])]])].
+Lemma ex_nonvacuous :
+  is_aggr ex_ty = true /\ wf_ty ex_ty = true /\ stage2 ex_ty = true /\ wt ex_ty ex_val = true /\
+  known_class V1 ex_ty ex_val = 0%N /\ known_class V2 ex_ty ex_val = 0%N /\
+  (exists bs, encode V1 BE ex_ty ex_val = Ok bs /\ blen bs <= size_limit V1 ex_ty /\ decode ex_ty bs = Ok ex_val).
+Proof.
+  do 6 (split; [vm_compute; reflexivity|]).
+  eexists. split; [vm_compute; reflexivity|]. split; [vm_compute; discriminate|vm_compute; reflexivity].
+Qed.
+
+(* ------------------------------------------------------------------ oracle soundness *)
+Section ValInd.
+Variable P : val -> Prop.
+Hypothesis HP : forall k z, P (VP k z).
+Hypothesis HS : forall s, P (VStr s).
+Hypothesis HD : forall d, Forall (fun kv => P (snd kv)) d -> P (VData d).
+Hypothesis HQ : forall k l, P (VSeqP k l).
+Hypothesis HQS : forall l, P (VSeqStr l).
+Hypothesis HQD : forall l, Forall (Forall (fun kv => P (snd kv))) l -> P (VSeqData l).
+Fixpoint val_ind' (v : val) : P v :=
+  match v with
+  | VP k z => HP k z
+  | VStr s => HS s
+  | VData d =>
+    HD d ((fix go (d : list (Z * val)) : Forall (fun kv => P (snd kv)) d :=
+             match d with
+             | [] => Forall_nil _
+             | kv :: r => Forall_cons kv (val_ind' (snd kv)) (go r)
+             end) d)
+  | VSeqP k l => HQ k l
+  | VSeqStr l => HQS l
+  | VSeqData l =>
+    HQD l ((fix gol (l : list (list (Z * val))) : Forall (Forall (fun kv => P (snd kv))) l :=
+              match l with
+              | [] => Forall_nil _
+              | d :: r =>
+                Forall_cons d
+                  ((fix go (d : list (Z * val)) : Forall (fun kv => P (snd kv)) d :=
+                      match d with
+                      | [] => Forall_nil _
+                      | kv :: q => Forall_cons kv (val_ind' (snd kv)) (go q)
+                      end) d) (gol r)
+              end) l)
+  end.
+End ValInd.
+
+Lemma list_eqb_eq : forall {A} (eq : A -> A -> bool),
+  (forall x y, eq x y = true <-> x = y) -> forall a b, list_eqb eq a b = true <-> a = b.
+Proof.
+  intros A eq Heq. induction a as [|x r IH]; destruct b as [|y s]; cbn [list_eqb]; split; intros H;
+    try reflexivity; try discriminate.
+  - apply andb_prop in H as [H1 H2]. apply Heq in H1. apply IH in H2. congruence.
+  - inversion H. subst. apply andb_true_intro. split; [now apply Heq|now apply IH].
+Qed.
+Lemma zlist_eqb_eq : forall a b : list Z, list_eqb Z.eqb a b = true <-> a = b.
+Proof. apply list_eqb_eq. intros. apply Z.eqb_eq. Qed.
+
+Definition dyn_eqb (d d' : list (Z * val)) : bool :=
+  (fix go (d d' : list (Z * val)) : bool :=
+     match d, d' with
+     | [], [] => true
+     | (k, v) :: r, (k', v') :: r' => (k =? k') && val_eqb v v' && go r r'
+     | _, _ => false
+     end) d d'.
+
+Lemma dyn_eqb_eq : forall d, Forall (fun kv => forall b, val_eqb (snd kv) b = true <-> snd kv = b) d ->
+  forall d', dyn_eqb d d' = true <-> d = d'.
+Proof.
+  induction d as [|[k v] r IH]; intros HF d'; destruct d' as [|[k' v'] r']; unfold dyn_eqb in *; split; intros H;
+    try reflexivity; try discriminate.
+  - inversion HF as [|? ? Hv Hr]. subst. cbn [snd] in Hv.
+    apply andb_prop in H as [H H3]. apply andb_prop in H as [H1 H2].
+    apply Z.eqb_eq in H1. apply Hv in H2. apply (IH Hr) in H3. congruence.
+  - inversion HF as [|? ? Hv Hr]. subst. cbn [snd] in Hv. inversion H. subst.
+    rewrite Z.eqb_refl. cbn [andb]. apply andb_true_intro. split; [now apply Hv|now apply (IH Hr)].
+Qed.
+
+Theorem val_eqb_eq : forall a b, val_eqb a b = true <-> a = b.
+Proof.
+  induction a using val_ind'; intros b.
+  - destruct b; cbn [val_eqb]; split; intros H0; try discriminate.
+    + apply andb_prop in H0 as [H1 H2]. apply sk_eqb_eq in H1. apply Z.eqb_eq in H2. congruence.
+    + inversion H0. subst. now rewrite sk_eqb_refl, Z.eqb_refl.
+  - destruct b; cbn [val_eqb]; split; intros H0; try discriminate.
+    + apply zlist_eqb_eq in H0. congruence.
+    + inversion H0. subst. now apply zlist_eqb_eq.
+  - destruct b as [| |d'| | |]; try (cbn [val_eqb]; split; intros H0; discriminate).
+    change (val_eqb (VData d) (VData d')) with (dyn_eqb d d').
+    rewrite (dyn_eqb_eq d H d'). split; intros H0; congruence.
+  - destruct b; cbn [val_eqb]; split; intros H0; try discriminate.
+    + apply andb_prop in H0 as [H1 H2]. apply sk_eqb_eq in H1. apply zlist_eqb_eq in H2. congruence.
+    + inversion H0. subst. rewrite sk_eqb_refl. cbn [andb]. now apply zlist_eqb_eq.
+  - destruct b; cbn [val_eqb]; split; intros H0; try discriminate.
+    + apply (list_eqb_eq (list_eqb Z.eqb) zlist_eqb_eq) in H0. congruence.
+    + inversion H0. subst. now apply (list_eqb_eq (list_eqb Z.eqb) zlist_eqb_eq).
+  - destruct b as [| | | | |l']; try (cbn [val_eqb]; split; intros H0; discriminate).
+    assert (Hl : forall l', (fix gol (l l' : list (list (Z * val))) : bool :=
+                match l, l' with
+                | [], [] => true
+                | d :: r, d' :: r' => dyn_eqb d d' && gol r r'
+                | _, _ => false
+                end) l l' = true <-> l = l').
+    { induction H as [|d r Hd Hr IH]; intros l2; destruct l2 as [|d' r']; split; intros H0;
+        try reflexivity; try discriminate.
+      - apply andb_prop in H0 as [H1 H2]. apply (dyn_eqb_eq d Hd) in H1. apply IH in H2. congruence.
+      - inversion H0. subst. apply andb_true_intro. split; [now apply (dyn_eqb_eq d' Hd)|now apply IH]. }
+    change (val_eqb (VSeqData l) (VSeqData l')) with
+      ((fix gol (l l' : list (list (Z * val))) : bool :=
+          match l, l' with
+          | [], [] => true
+          | d :: r, d' :: r' => dyn_eqb d d' && gol r r'
+          | _, _ => false
+          end) l l').
+    rewrite (Hl l'). split; intros H0; congruence.
+Qed.
+
